@@ -659,16 +659,14 @@ let op_cookie opidx (impl : string list option) toks =
   match toks with
   | len :: mode :: rest ->
       let len = int_of_string len and arg = (match rest with a :: _ -> int_of_string a | [] -> 0) in
-      (* the extracted check (Cookie.cookie_verify) on the same construction: time stamp of 8 octets, a 32-octet hash
-         that depends on every octet of the time *)
+      (* the extracted check (Cookie.cookie_verify) on the same construction, with the extracted reading of the time stamp
+         (8 octets little-endian, two's complement: a flipped top bit is a time far in the past) and stand-in hash *)
       let now = 1000000 in
-      let ts t = List.init 8 (fun i -> n_of_int ((t lsr (8 * i)) land 255)) in
-      let tstamp b = z_of_int (List.fold_left (fun a (i, x) -> a + (int_of_n x lsl (8 * i))) 0 (List.mapi (fun i x -> (i, x)) b)) in
-      let hash t = let t = int_of_z t in List.init 32 (fun i -> n_of_int ((((t lsr (8 * (i mod 8))) land 255) + 3 * i + 1) land 255)) in
       let t0 = if mode = "o" then now - arg else now in
-      let genuine = ts t0 @ hash (z_of_int t0) in
+      let genuine = ts_encode_le (z_of_int t0) @ standin_hash (z_of_int t0) in
       let c = List.init len (fun i -> if i < 40 then List.nth genuine i else n_of_int (arg land 255)) in
       let c = if mode = "f" && len > 0 then List.mapi (fun i x -> if i = (arg / 8) mod len then n_of_int (int_of_n x lxor (1 lsl (arg mod 8))) else x) c else c in
+      let hash = standin_hash and tstamp = tstamp_le in
       let want = cookie_verify hash tstamp (z_of_int now) c in
       pr "obs %d cookie genuine=40 len=%d accept=%d\n" opidx len (if want then 1 else 0);
       (match impl with
